@@ -1223,6 +1223,42 @@ Proof.
   - rewrite <- Eph. exact Hclose.
 Qed.
 
+(* what is left when the scan stops: either no unescaped opening brace at all, or a last
+   unescaped opening brace after which no unescaped closing brace follows (unpaired placeholder) *)
+Definition unpaired_tail (s : bytes) : Prop :=
+  all_open_escaped s \/
+  exists a r, s = a ++ LB :: r /\ all_open_escaped a /\
+              forall j, nth_error (LB :: r) j = Some RB -> escaped_at (LB :: r) j.
+
+Lemma scan_none_tail s : scan_step s = Ok None -> unpaired_tail s.
+Proof.
+  unfold scan_step.
+  destruct (find_unescaped_ok (S (length s)) LB s 0%nat) as [st [Est Hst]]; [discriminate|lia|lia|].
+  pose proof (find_unescaped_min (S (length s)) LB s 0%nat st ltac:(discriminate) ltac:(lia) (or_introl eq_refl) Est) as HminL.
+  rewrite Est. cbn [rbind].
+  destruct st as [i0|].
+  2:{ intros _. left. intros k Hk. destruct (HminL k ltac:(lia) I Hk) as [j' [-> Hj']]. exists j'. split; auto. }
+  destruct (Hst i0 eq_refl) as [[_ Hi0] [Hn0 _]].
+  ok_from s i0. set (sp := skipn i0 s).
+  assert (Hsp : length sp = (length s - i0)%nat) by apply skipn_length.
+  destruct (find_unescaped_ok (S (length sp)) RB sp 0%nat) as [en [Een Hen]]; [discriminate|lia|lia|].
+  pose proof (find_unescaped_min (S (length sp)) RB sp 0%nat en ltac:(discriminate) ltac:(lia) (or_introl eq_refl) Een) as HminR.
+  rewrite Een. cbn [rbind].
+  destruct en as [e|].
+  { destruct (Hen e eq_refl) as [[_ He] _].
+    ok_slice s i0 (i0 + e + 1)%nat. ok_slice s 0%nat i0. ok_from s (i0 + e + 1)%nat. discriminate. }
+  intros _. right.
+  assert (H0 : nth_error sp 0 = Some LB) by (unfold sp; rewrite nth_error_skipn, Nat.add_0_r; exact Hn0).
+  destruct sp as [|c r] eqn:Esp; [discriminate|]. simpl in H0. injection H0 as ->.
+  exists (firstn i0 s), r. split; [|split].
+  - rewrite <- Esp. unfold sp. symmetry. apply firstn_skipn.
+  - intros k Hk. pose proof (nth_error_firstn_some _ _ _ _ Hk) as Hlt.
+    rewrite (nth_error_firstn_lt s i0 k Hlt) in Hk.
+    destruct (HminL k ltac:(lia) Hlt Hk) as [j' [-> Hj']]. exists j'. split; [reflexivity|].
+    rewrite nth_error_firstn_lt; [exact Hj'|lia].
+  - intros j Hj. apply (HminR j); [lia|exact I|exact Hj].
+Qed.
+
 (* the pieces of a format: (raw literal, raw placeholder) pairs followed by a raw tail *)
 Definition pieces_cat (ps : list (bytes * bytes)) : bytes := concat (map (fun p => fst p ++ snd p) ps).
 Definition pieces_template (ps : list (bytes * bytes)) (tail : bytes) : list seg :=
@@ -1277,17 +1313,18 @@ Qed.
 Lemma replace_scan_decomposition gs fmt :
   exists ps tail,
     fmt = pieces_cat ps ++ tail /\ Forall leftmost_piece ps /\
-    (has_brace fmt = true -> scan_step tail = Ok None) /\
+    (has_brace fmt = true -> scan_step tail = Ok None) /\ unpaired_tail tail /\
     template fmt = Ok (pieces_template ps tail) /\
     expand gs fmt = Ok (pieces_out gs ps tail).
 Proof.
   destruct (has_brace fmt) eqn:Eb.
   - destruct (template_loop_decomp (S (length fmt)) fmt) as [ps [tail [Es [Hb [Ht Et]]]]]; [lia|].
-    exists ps, tail. repeat split; auto.
+    exists ps, tail. split; [exact Es|split; [exact Hb|split; [intros _; exact Ht|split; [exact (scan_none_tail tail Ht)|split]]]].
     + unfold template. rewrite Eb. exact Et.
     + rewrite expand_factorises. unfold template. rewrite Eb. cbn [negb]. rewrite Et.
       rewrite pieces_render. reflexivity.
-  - exists [], fmt. repeat split; auto; try discriminate.
+  - exists [], fmt. split; [reflexivity|split; [constructor|split; [discriminate|split; [|split]]]].
+    + left. intros k Hk. exfalso. apply (proj1 (has_brace_false fmt Eb)). eapply nth_error_In; exact Hk.
     + unfold template. rewrite Eb. cbn [negb]. unfold pieces_template. cbn [flat_map app].
       rewrite (unescape_no_brace fmt Eb). reflexivity.
     + unfold expand. rewrite Eb. cbn [negb]. unfold pieces_out. cbn [map concat app].
